@@ -51,7 +51,7 @@ def classes() -> List[Any]:
     import utils
 
     return [
-        utils.B, pkg.utils.C, foo.Baz, barfoo.Qux, pkg.typing.X, thing.thing, nest.Outer.Inner, nest.Outer.Inner.Deep,
+        utils.B, pkg.utils.C, pkg.P, foo.Baz, barfoo.Qux, pkg.typing.X, thing.thing, thing.thing.Point, nest.Outer.Inner, nest.Outer.Inner.Deep,
         _io.StringIO, nonet.MyNoneType, nonet.NoneTypeX, tgt.Own, int, type(None),
     ]
 
@@ -95,6 +95,9 @@ def builders() -> List[Tuple[str, Callable[[Any, Any], Any]]]:
         ("Tuple_td", lambda a, b, u="": Tuple[atd({"fa" + u: a}), b]),
         ("Tuple_td2", lambda a, b, u="": Tuple[atd({"fa" + u: a}), atd({"fb" + u: b})]),
         ("DefaultDict_td", lambda a, b, u="": DefaultDict[str, atd({"fa" + u: a})]),
+        ("Tuple_td_List_td", lambda a, b, u="": Tuple[atd({"fa" + u: a}), List[atd({"fb" + u: b})]]),
+        ("Tuple_Dict_td_td", lambda a, b, u="": Tuple[Dict[str, atd({"fa" + u: a})], atd({"fb" + u: b})]),
+        ("OptionalUnion", lambda a, b, u="": Union[a, b, None] if a is not b else Optional[a]),
         ("td_nested", lambda a, b, u="": atd({"fa" + u: atd({"fb" + u: b})})),
         ("td_list_field", lambda a, b, u="": atd({"fa" + u: List[a], "fb" + u: Optional[b] if b is not NoneT else b})),
     ]
@@ -150,6 +153,9 @@ def check_stub(text: str, modname: str, mod, expect: List[Tuple[Tuple[Tuple[str,
                 out.append(("unresolved", sig, f"{key} {pname}: annotation {src!r} does not evaluate: {norm.msg} (expected {O.show(T)})"))
                 continue
             if O.struct(norm) != O.struct(T):
+                if info.duplicate_classes and any(d in (src or "") or d in text for d in info.duplicate_classes):
+                    out.append(("wrong-type", "typed-dict-class-name-collision:" + BN.get((key, pname), "?"), f"{key} {pname}: annotation {src!r} denotes {O.show(norm)}, expected {O.show(T)}; the stub defines {info.duplicate_classes} more than once"))
+                    continue
                 out.append(("wrong-type", tag, f"{key} {pname}: annotation {src!r} denotes {O.show(norm)}, expected {O.show(T)}"))
     # every field of every generated class must evaluate too (names used anywhere in the stub)
     for msg in info.td_field_errors:
@@ -169,11 +175,20 @@ def build(traces, k: int = 10) -> Dict[str, str]:
     return {m: s.render() for m, s in stubs.items()}
 
 
-def make_case(cls: List[Any], bs, tg, ai: int, bi: int, i: int, ci: Optional[int] = None):
-    """One module stub: every function of the target gets a different builder over (a, b)."""
+BN: Dict[Any, str] = {}
+
+
+def make_case(cls: List[Any], bs, tg, ai: int, bi: int, i: int, ci: Optional[int] = None, single: bool = False):
+    """One module stub: every function of the target gets a different builder over (a, b); `single`: only the first
+    function and only its parameter (so that no other annotation can provide a missing import)."""
     from monkeytype.tracing import CallTrace
 
     modname, mod, funcs, gen = tg
+    if single:
+        qn, fn, pn = funcs[0]
+        T = bs[i % len(bs)][1](cls[ai], cls[bi], "p0")
+        BN[((tuple(qn.split(".")[:-1]), qn.split(".")[-1]), pn)] = bs[i % len(bs)][0]
+        return [CallTrace(fn, {pn: T}, None, None)], [((tuple(qn.split(".")[:-1]), qn.split(".")[-1]), {pn: T}, None)]
     a, b = cls[ai], cls[bi]
     c = cls[ci] if ci is not None else None
     traces = []
@@ -186,12 +201,15 @@ def make_case(cls: List[Any], bs, tg, ai: int, bi: int, i: int, ci: Optional[int
         traces.append(CallTrace(fn, {pn: T}, R, None))
         path = tuple(qn.split(".")[:-1])
         expect.append(((path, qn.split(".")[-1]), {pn: T}, R))
+        BN[((path, qn.split(".")[-1]), pn)] = bn1
+        BN[((path, qn.split(".")[-1]), "return")] = bn2
     if gen is not None:
         bn1, b1 = bs[i % len(bs)]
         Y = b1(a, b, "y")
         R = b if (i % 2) else None
         traces.append(CallTrace(gen[1], {gen[2]: a}, R, Y))
         expect.append((((), gen[0]), {gen[2]: a}, expected_return(R, Y)))
+        BN[(((), gen[0]), "return")] = bn1
     return traces, expect
 
 
@@ -206,6 +224,7 @@ def run(ctx: Ctx) -> Result:
     bs = builders()
     tgs = targets()
     cases = [(ti, ai, bi, i, None) for ti in range(len(tgs)) for ai in range(len(cls)) for bi in range(len(cls)) for i in range(len(bs))]
+    cases += [(ti, ai, bi, i, "single") for ti in range(len(tgs)) for ai in range(len(cls)) for bi in range(len(cls)) for i in range(len(bs))]
     if ctx.tier == "thorough":
         cases += [(0, ai, bi, i, ci) for ai in range(len(cls)) for bi in range(len(cls)) for ci in range(len(cls)) for i in range(0, len(bs), 2) if ci not in (ai, bi)]
     nshards = ctx.workers * 2
@@ -218,7 +237,7 @@ def run(ctx: Ctx) -> Result:
             res.states += 1
             case = {"target": ti, "a": ai, "b": bi, "builder": i, "c": ci}
             try:
-                traces, expect = make_case(cls, bs, tg, ai, bi, i, ci)
+                traces, expect = make_case(cls, bs, tg, ai, bi, i, None if ci == "single" else ci, single=(ci == "single"))
                 text = build(traces)[tg[0]]
             except Exception as e:  # noqa: BLE001
                 res.violate(Violation(ID, "exception", type(e).__name__, case, f"building/rendering raised {e!r}"))
@@ -253,7 +272,7 @@ def replay(case: Dict[str, Any], ctx: Ctx) -> List[Violation]:
     cls, bs, tgs = classes(), builders(), targets()
     tg = tgs[case["target"]]
     try:
-        traces, expect = make_case(cls, bs, tg, case["a"], case["b"], case["builder"], case.get("c"))
+        traces, expect = make_case(cls, bs, tg, case["a"], case["b"], case["builder"], None if case.get("c") == "single" else case.get("c"), single=(case.get("c") == "single"))
         text = build(traces)[tg[0]]
     except Exception as e:  # noqa: BLE001
         return [Violation(ID, "exception", type(e).__name__, case, repr(e))]
